@@ -44,7 +44,8 @@ func (x *Exec) callValue(st *State, fr *Frame, fnv Value, args []Value, call *ss
 		}
 		key := ifaceMethodKey(call.Value.Type(), m)
 		sig := m.Type().(*types.Signature)
-		if c := x.db.Funcs[key]; c != nil {
+		x.callAsserts(st, fr, key, append([]Value{recv}, args...), paramNames(sig, nil), pos)
+		if c := x.contractOf(key); c != nil {
 			return x.applyContract(st, fr, c, key, sig, nil, append([]Value{recv}, args...), pos)
 		}
 		if im, ok := ifaceModels[key]; ok {
@@ -69,7 +70,7 @@ func (x *Exec) callValue(st *State, fr *Frame, fnv Value, args []Value, call *ss
 		if u, ok := call.Value.(*ssa.UnOp); ok {
 			if g, ok := u.X.(*ssa.Global); ok && g.Pkg != nil {
 				key := g.Pkg.Pkg.Path() + "." + g.Name()
-				if c := x.db.Funcs[key]; c != nil {
+				if c := x.contractOf(key); c != nil {
 					return x.applyContract(st, fr, c, key, sig, nil, args, pos)
 				}
 			}
@@ -115,7 +116,8 @@ func shortName(key string) string {
 
 func (x *Exec) callStatic(st *State, fr *Frame, fn *ssa.Function, args []Value, binds []Value, pos token.Pos) []Outcome {
 	key := funcKey(fn)
-	c := x.db.Funcs[key]
+	c := x.contractOf(key)
+	x.callAsserts(st, fr, key, args, paramNames(fn.Signature, fn), pos)
 	if c != nil && !c.Inline {
 		return x.applyContract(st, fr, c, key, fn.Signature, fn, args, pos)
 	}
